@@ -679,7 +679,7 @@ impl CaseDriver for Dag {
     fn describe(&self, t: Tier) -> Describe {
         Describe {
             rule: format!(
-                "placed libraries of n = {}..={} cells: every DAG (cell i may instantiate any subset of the cells j < i) x every listing order of the cells (n!) x reflection base (instance k of a cell gets combination (base+k) mod 4, so all four occur) x content profile (0/1/2 assignments and cuts per layout, witness quadruples with four different numbers); value deviations (transport: message as exported / through prost encode+decode, library / cell names incl. empty, non-ASCII and names with dots (one of them ending in another cell's name), slashes and colons, outline 1-3 steps / repeated step / zero, metals 0..3, views layout / layout+abstract (the abstract optionally with another metal count and outline) / abstract-only leaf / leaf without any view, a layout view named differently from its cell, per-cell assignment and cut counts, a cut / an assignment stated twice (adjacent or apart), a cut at the very crossing of an assignment, crossings between layers three apart / on one layer / with the crossing track on layer 0, net names, per-instance reflection, location incl. (0,0) and negative, duplicated instance) in at most {} place(s). State = one library description + transport; non-trivial = at least one instance, assignment or cut.",
+                "placed libraries of n = {}..={} cells: every DAG (cell i may instantiate any subset of the cells j < i) x every listing order of the cells (n!) x reflection base (instance k of a cell gets combination (base+k) mod 4, so all four occur) x content profile (0/1/2 assignments and cuts per layout, witness quadruples with four different numbers); value deviations (transport: message as exported / through prost encode+decode, library / cell names incl. empty, non-ASCII and names with dots (one of them ending in another cell's name), slashes and colons, outline 1-3 steps / repeated step / zero, metals 0..3, views layout / layout+abstract (the abstract optionally with another metal count and outline) / abstract-only leaf / leaf without any view, a layout view named differently from its cell, per-cell assignment and cut counts, a cut / an assignment stated twice (adjacent or apart), a cut at the very crossing of an assignment, an intersection assigned once from each of its two tracks, instance names reused from cell to cell, crossings between layers three apart / on one layer / with the crossing track on layer 0, net names, per-instance reflection, location incl. (0,0) and negative, duplicated instance) in at most {} place(s). State = one library description + transport; non-trivial = at least one instance, assignment or cut.",
                 self.nmin,
                 self.nmax,
                 self.bound(t)
@@ -737,6 +737,7 @@ impl CaseDriver for Dag {
                     _ => (-(i as i64 + 7), 40 + j as i64),
                 };
                 insts.push(InstD { name: format!("i{i}_{j}"), cell: j, loc, rh: r.0, rv: r.1 });
+                // (instance names are scoped to their cell: optionally every cell numbers its instances x0, x1, ...)
                 k += 1;
                 if c.cost(2, "inst-dup") == 1 {
                     let r2 = REFL[(base + k) % 4];
@@ -781,10 +782,15 @@ impl CaseDriver for Dag {
                 }
             }
             if !assigns.is_empty() {
-                match c.cost(3, "assign-repeated") {
+                match c.cost(4, "assign-repeated") {
                     0 => {}
                     1 => assigns.insert(1, assigns[0].clone()),
-                    _ => assigns.push(assigns[0].clone()),
+                    2 => assigns.push(assigns[0].clone()),
+                    // the same intersection named from the other track (another net name: they are two assignments)
+                    _ => {
+                        let x = assigns[0].1.clone();
+                        assigns.push(("other_way".to_string(), CrossD(x.2, x.3, x.0, x.1)));
+                    }
                 }
             }
             // the layout view may carry a name of its own (the cell is still known by the cell's name)
@@ -797,6 +803,15 @@ impl CaseDriver for Dag {
                 _ => None,
             };
             cells.push(CellD { name: cname, layout, abs });
+        }
+        if nedges > 0 && c.cost(2, "instance-names-reused-across-cells") == 1 {
+            for cell in cells.iter_mut() {
+                if let Some(l) = cell.layout.as_mut() {
+                    for (k, i) in l.insts.iter_mut().enumerate() {
+                        i.name = format!("x{k}");
+                    }
+                }
+            }
         }
         RtCase { lib: LibD { name, cells, listing }, via_bytes, nedges }
     }
